@@ -199,3 +199,43 @@ pub fn alloc_array(elems: &[Value]) -> (r: Result<DataRef, Error>)
 pub fn alloc_closure(function_index: VmIndex, upvars: &[Value]) -> (r: Result<DataRef, Error>)
     ensures r is Ok ==> dataref_value(r->Ok_0) == closure_value(function_index, upvars@)
 { unimplemented!() }
+
+// ---- call protocol (thread.rs call_function_with_upvars): partial application and excess arguments
+#[verifier::external_body] pub struct Callable { _p: () }
+pub uninterp spec fn papp_value(callable: Callable, args: Seq<Value>) -> Value;   // a partial application holding these arguments, in order
+#[verifier::external_body]
+pub fn alloc_papp(callable: &Callable, fields: &[Value]) -> (r: Result<DataRef, Error>)
+    ensures r is Ok ==> dataref_value(r->Ok_0) == papp_value(*callable, fields@)
+{ unimplemented!() }
+// `slice::from_ref(Variants::from(d).get_value())`: the one-element slice holding the freshly allocated value
+#[verifier::external_body]
+pub fn one_value_slice(d: DataRef) -> (r: &'static [Value])
+    ensures r@ == seq![dataref_value(d)]
+{ unimplemented!() }
+pub enum CmpOrdering { Less, Equal, Greater }
+// `args.cmp(&required_args)` on u32 (core, ASSUMED to be the integer order)
+#[verifier::external_body]
+pub fn u32_cmp(a: VmIndex, b: VmIndex) -> (r: CmpOrdering)
+    ensures (r is Less) == (a < b), (r is Equal) == (a == b), (r is Greater) == (a > b)
+{ unimplemented!() }
+// what the protocol hands back: the context, and -- if the callee's scope is entered -- the `excess` flag it was entered with
+pub struct CallOutcome { pub ctx: ExecuteContext, pub entered: Option<bool> }
+// the `enter_scope` continuation (enter_closure / enter_extern): opaque; only what it is called with is recorded
+#[verifier::external_body]
+pub fn enter_scope_cb(ctx: ExecuteContext, excess: bool) -> (r: Result<CallOutcome, Error>)
+    ensures r is Ok ==> r->Ok_0.ctx == ctx && r->Ok_0.entered == Some(excess)
+{ unimplemented!() }
+impl ExecuteContext {
+    // self.to_state(): forgets the static frame type, identity here
+    #[verifier::external_body]
+    pub fn to_state(self) -> (r: CallOutcome) ensures r.ctx == self && r.entered is None { unimplemented!() }
+}
+
+pub uninterp spec fn spec_callable_args(c: Callable) -> VmIndex;
+// ---- do_call, PartialApplication arm: the stored arguments are spliced in below the new ones
+pub struct PartialApplicationData { pub function: Callable, pub args: Vec<Value> }
+impl Callable {
+    // Callable::args(): number of parameters of the underlying closure / extern function
+    #[verifier::external_body]
+    pub fn args(&self) -> (r: VmIndex) ensures r == spec_callable_args(*self) { unimplemented!() }
+}
